@@ -453,6 +453,13 @@ func (d *Dir) AddFault(f DirFault) {
 	d.mu.Unlock()
 }
 
+// ClearFaults drops the injected failures that have not fired.
+func (d *Dir) ClearFaults() {
+	d.mu.Lock()
+	d.faults = nil
+	d.mu.Unlock()
+}
+
 // PendingFaults returns the number of injected failures that have not fired.
 func (d *Dir) PendingFaults() int {
 	d.mu.Lock()
